@@ -48,9 +48,9 @@ def s_motor(draw, currents=None):
     return m
 
 
-def _requal(pair, kind, draw):
+def _requal(pair, kind, draw, allow=True):
     """the same magnitude, possibly re-expressed in another unit"""
-    if draw(st.booleans()):
+    if not allow or draw(st.booleans()):
         return list(pair)
     u = draw(s_unit(kind))
     if u == pair[1]:
@@ -59,7 +59,7 @@ def _requal(pair, kind, draw):
 
 
 @st.composite
-def s_chain(draw, min_len=1, max_len=6, worm='maybe', locking=None, optional_data=True):
+def s_chain(draw, min_len=1, max_len=6, worm='maybe', locking=None, optional_data=True, requal=True):
     """chain of 1..max_len elements after the motor; worm: 'no' | 'maybe' | 'yes'"""
     n = draw(st.integers(min_len, max_len))
     chain = []
@@ -84,7 +84,7 @@ def s_chain(draw, min_len=1, max_len=6, worm='maybe', locking=None, optional_dat
             el = {'type': pt, 'n_teeth': draw(st.integers(10, 80)), 'J': J,
                   'link': {'kind': 'gear', 'eta': draw(st.one_of(st.floats(0.5, 1.0), st.sampled_from([1, 1.0, 0.9])))}}
             if pt == 'helical':
-                el['helix'] = _requal(prev['helix'], 'Angle', draw)
+                el['helix'] = _requal(prev['helix'], 'Angle', draw, requal)
         elif kind == 'worm':
             alpha = U.si('Angle', *prev['pressure'])
             beta = U.si('Angle', *prev['helix'])
@@ -102,7 +102,7 @@ def s_chain(draw, min_len=1, max_len=6, worm='maybe', locking=None, optional_dat
                     f = crit * 0.5
             else:
                 f = crit * draw(st.floats(0.01, 0.9))      # a wheel can only drive a non-self-locking worm
-            el = {'J': J, 'link': {'kind': 'worm', 'f': f}, 'helix': _requal(prev['helix'], 'Angle', draw),
+            el = {'J': J, 'link': {'kind': 'worm', 'f': f}, 'helix': _requal(prev['helix'], 'Angle', draw, requal),
                   'pressure': list(prev['pressure'])}
             if worm_master:
                 el.update(type='wheel', n_teeth=draw(st.integers(10, 80)))
@@ -135,11 +135,11 @@ def s_chain(draw, min_len=1, max_len=6, worm='maybe', locking=None, optional_dat
         chain.append({'type': 'spur', 'n_teeth': 20, 'J': qty('InertiaMoment', 1e-5, 'kgm^2'),
                       'link': {'kind': 'joint'}})
     if optional_data:
-        _add_optional_data(draw, chain)
+        _add_optional_data(draw, chain, requal)
     return chain
 
 
-def _add_optional_data(draw, chain):
+def _add_optional_data(draw, chain, requal=True):
     """module / face width / modulus / worm diameter, respecting the library's by-design preconditions:
     a gear with a module must take part in a mating; full contact data needs a mate with module and modulus."""
     n = len(chain)
@@ -155,7 +155,7 @@ def _add_optional_data(draw, chain):
         up, down = mated(i)
         if el['type'] in ('spur', 'helical') and (up or down):
             if up and chain[i - 1].get('module') is not None and draw(st.integers(0, 4)) > 0:
-                el['module'] = _requal(chain[i - 1]['module'], 'Length', draw)
+                el['module'] = _requal(chain[i - 1]['module'], 'Length', draw, requal)
             elif not up or chain[i - 1].get('module') is None:
                 if draw(st.integers(0, 2)) > 0:
                     el['module'] = s_qty(draw, 'Length', s_mag(-4, -2))
